@@ -259,6 +259,9 @@ pub struct ClassDef {
 pub struct Stmt {
     pub kind: StmtKind,
     pub line: Cell<u32>,
+    /// `for`: line of the last token of the iterable expression; other statements: line of the
+    /// statement's last token (0 = same as `line`)
+    pub aux_line: Cell<u32>,
 }
 
 #[derive(Clone, Debug)]
@@ -285,6 +288,7 @@ impl Stmt {
         Stmt {
             kind,
             line: Cell::new(0),
+            aux_line: Cell::new(0),
         }
     }
     pub fn expr(e: Expr) -> Stmt {
